@@ -178,6 +178,26 @@ def one_run(idx, pid, spec_run, seed):
         if last is None or rc == -999:
             aborted = {'case_id': last, 'rc': rc, 'stderr': herr[-300:]}
             break
+        if rc == 86:
+            # the per-case watchdog ended the run: on a loaded machine a harmless case can exceed it. Run that one case
+            # again on its own (generous limit); only if it still does not return is it an abort.
+            try:
+                rp = subprocess.run([HARNESS_EXE, spec_run['suite']] + spec_run['args'] + ['--replay-case', cases[last], '--case-timeout-ms', '120000'],
+                                    env=ENV, stdout=subprocess.PIPE, stderr=subprocess.PIPE, timeout=150)
+                rout = rp.stdout.decode('utf-8', 'replace')
+            except subprocess.TimeoutExpired:
+                rout = ''
+            rimpl = [l for l in rout.splitlines() if l.startswith('IMPL ')]
+            if len(rimpl) == 1 and 'DONE' in rout:
+                k = rimpl[0].split(' ', 2)
+                impl[last] = k[2] if len(k) > 2 else ''
+                for l in rout.splitlines():
+                    if l.startswith('ORACLE'):
+                        q = l.split(' ', 4)
+                        oracle.append((last, q[2], q[3], q[4] if len(q) > 4 else ''))
+                stats['watchdog_retry_ok'] = stats.get('watchdog_retry_ok', 0) + 1
+                skip = int(last)
+                continue
         mrc, m1, _ = run_model('CASE %s %s\n' % (last, cases[last]), timeout=120)
         mres = m1.get(last)
         if mrc != 0 or mres is None or 'OOF' in mres or 'oof' in mres or 'CYCLIC' in mres:
